@@ -368,8 +368,18 @@ theorem treeHomesOK_of_world (w : World R) (hw : HomesOK w) (t : Nat) (tm : Tmpl
   cases hhm : h.home with
   | none => exact ⟨tm, by simp [eff, hhm, ht], by simp [eff, hhm]⟩
   | some hm =>
-    obtain ⟨tm', h1, h2, _, _⟩ := hw t tm ht h hh hm hhm
+    obtain ⟨tm', h1, h2⟩ := hw t tm ht h hh hm hhm
     exact ⟨tm', by simp [eff, hhm, h1], by simp [eff, hhm, cid, h2]⟩
+
+theorem homesOK_of_b (w : World R) (hb : homesOKb w = true) : HomesOK w := by
+  intro t tm ht h hh hm hhm
+  have hmem : tm ∈ w.tmpls := List.mem_of_getElem? ht
+  simp only [homesOKb, List.all_eq_true] at hb
+  have := hb tm hmem h hh
+  simp only [hhm] at this
+  cases h' : w.tmpls[hm.tid]? with
+  | none => simp [h'] at this
+  | some tm' => simp [h'] at this; exact ⟨tm', rfl, this⟩
 
 theorem own_preserved (w : World R) (P : Params R) (T : Items) (hd : IdsDistinct w)
     (hwf : TreeHomesOK w P T) : Preserved P T (OwnInv w) := by
